@@ -294,3 +294,14 @@ func sampleEvents(ev []event, max int) []string {
 	}
 	return out
 }
+
+func mul64(a, b uint64) (hi, lo uint64) { return bits.Mul64(a, b) }
+
+// div128 returns floor((hi:lo)/d), saturating at 2^64-1.
+func div128(hi, lo, d uint64) uint64 {
+	if d == 0 || hi >= d {
+		return ^uint64(0)
+	}
+	q, _ := bits.Div64(hi, lo, d)
+	return q
+}
